@@ -444,4 +444,227 @@ pub fn run(args: &Args, sink: &mut Sink, asyncf: bool) {
         }).collect();
         run_case(sink, &format!("R{k}"), r.chance(1, 2), asyncf, &seq);
     }
+    if asyncf { run_guards(args, sink); }
+}
+
+// ---------------------------------------------------------------------------------------------------------
+// async-lock flavour with guards held across other calls, pending futures, cancellation (C16)
+use eyeball::ObservableReadGuard;
+
+enum FOut { Res(String), RG(ObservableReadGuard<'static, T, AsyncLock>), WG(ObservableWriteGuard<'static, T, AsyncLock>) }
+struct PFut { f: Pin<Box<dyn Future<Output = FOut>>>, flag: Arc<Flag>, waker: Waker, woken: bool, val: Option<u64> }
+enum GuardK { R(#[allow(dead_code)] ObservableReadGuard<'static, T, AsyncLock>), W(ObservableWriteGuard<'static, T, AsyncLock>) }
+
+struct GW {
+    ob: &'static SharedObservable<T, AsyncLock>,
+    subs: Vec<Option<SubH>>,
+    futs: Vec<Option<PFut>>,
+    guards: Vec<Option<GuardK>>,
+    nfut: usize,
+    cur: u64,
+    /// the subscriber's last poll was Pending while the lock was contended: its reusable lock future may be queued or hold a read permit
+    lockwait: Vec<bool>,
+    /// … and a write guard was held at that time
+    under_w: Vec<bool>,
+}
+
+impl GW {
+    fn new(sink: &mut Sink, v: u64) -> GW {
+        sink.line(&format!("onew shared async {v}"), "ok");
+        let ob: &'static SharedObservable<T, AsyncLock> = Box::leak(Box::new(SharedObservable::new_async(T(v))));
+        GW { ob, subs: vec![], futs: vec![], guards: vec![], nfut: 0, cur: v, lockwait: vec![], under_w: vec![] }
+    }
+    fn quiet(&self) -> bool { self.guards.iter().all(|g| g.is_none()) && self.futs.iter().all(|f| f.is_none()) && self.lockwait.iter().all(|b| !*b) }
+    fn wguard_held(&self) -> bool { self.guards.iter().any(|g| matches!(g, Some(GuardK::W(_)))) }
+    fn woke(&mut self) -> String {
+        let mut ids = vec![];
+        for (i, s) in self.subs.iter_mut().enumerate() {
+            if let Some(s) = s { if s.flag.0.swap(false, Ordering::SeqCst) { ids.push(i as u64); s.parked = false; } }
+        }
+        format!(" woke={}", fmt_list(&ids))
+    }
+    fn wokef(&mut self) -> String {
+        let mut ids = vec![];
+        for (k, f) in self.futs.iter_mut().enumerate() {
+            if let Some(f) = f { if f.flag.0.swap(false, Ordering::SeqCst) { ids.push(k as u64); f.woken = true; } }
+        }
+        if ids.is_empty() { String::new() } else { format!(" wokef={}", fmt_list(&ids)) }
+    }
+    fn mark_fresh(&mut self) { for s in self.subs.iter_mut().flatten() { s.fresh = true; } }
+
+    /// start a future, poll it once
+    fn start(&mut self, sink: &mut Sink, text: &str, f: Pin<Box<dyn Future<Output = FOut>>>, notify_to: Option<u64>) {
+        let k = self.nfut;
+        self.nfut += 1;
+        let (flag, waker) = flag_waker();
+        let mut pf = PFut { f, flag, waker, woken: false, val: notify_to };
+        let mut cx = Context::from_waker(&pf.waker);
+        match pf.f.as_mut().poll(&mut cx) {
+            Poll::Ready(out) => { self.futs.push(None); self.complete(sink, text, out, notify_to, false); }
+            Poll::Pending => {
+                if self.quiet() { sink.oracle_fail("C16", &format!("{text}: the future had to wait although no guard is held and nothing is queued")); }
+                self.futs.push(Some(pf));
+                let _ = k;
+                sink.line(text, &format!("Pending({k})"));
+            }
+        }
+    }
+    fn complete(&mut self, sink: &mut Sink, text: &str, out: FOut, notify_to: Option<u64>, with_woke: bool) {
+        match out {
+            FOut::Res(r) => {
+                if let Some(v) = notify_to { if r != "none" { self.cur = v; self.mark_fresh(); } }
+                let w = self.woke(); let wf = self.wokef();
+                sink.line(text, &format!("{r}{w}{wf}"));
+            }
+            FOut::RG(g) => { self.guards.push(Some(GuardK::R(g))); let s = if with_woke { format!("{}{}", self.woke(), self.wokef()) } else { String::new() }; sink.line(text, &format!("guard {}{s}", self.guards.len() - 1)); }
+            FOut::WG(g) => { self.guards.push(Some(GuardK::W(g))); let s = if with_woke { format!("{}{}", self.woke(), self.wokef()) } else { String::new() }; sink.line(text, &format!("guard {}{s}", self.guards.len() - 1)); }
+        }
+    }
+    fn write(&mut self, sink: &mut Sink, v: u64, sne: bool) {
+        let ob = self.ob;
+        let text = if sne { format!("w 0 sne {v}") } else { format!("w 0 set {v}") };
+        let f: Pin<Box<dyn Future<Output = FOut>>> = if sne {
+            Box::pin(async move { FOut::Res(fmt_opt(ob.set_if_not_eq(T(v)).await.map(|t| t.0))) })
+        } else {
+            Box::pin(async move { FOut::Res(ob.set(T(v)).await.0.to_string()) })
+        };
+        self.start(sink, &text, f, Some(v));
+    }
+    fn wguard(&mut self, sink: &mut Sink) { let ob = self.ob; self.start(sink, "awg 0", Box::pin(async move { FOut::WG(ob.write().await) }), None); }
+    fn rguard(&mut self, sink: &mut Sink) { let ob = self.ob; self.start(sink, "arg 0", Box::pin(async move { FOut::RG(ob.read().await) }), None); }
+    fn fpoll(&mut self, sink: &mut Sink, k: usize) {
+        let Some(pf) = self.futs[k].as_mut() else { return };
+        if pf.flag.0.swap(false, Ordering::SeqCst) { pf.woken = true; }
+        let mut cx = Context::from_waker(&pf.waker);
+        match pf.f.as_mut().poll(&mut cx) {
+            Poll::Pending => { pf.woken = false; sink.line(&format!("afpoll {k}"), &format!("Pending({k})")); }
+            Poll::Ready(out) => {
+                if !pf.woken { sink.oracle_fail("C16,C02", &format!("pending future {k} completed on a re-poll although its waker was never woken (a waiting writer/reader was not woken when the lock was released)")); }
+                let val = pf.val;
+                self.futs[k] = None;
+                self.complete(sink, &format!("afpoll {k}"), out, val, true);
+            }
+        }
+    }
+    fn fdrop(&mut self, sink: &mut Sink, k: usize) {
+        if self.futs[k].take().is_none() { return; }
+        let w = self.woke(); let wf = self.wokef();
+        sink.line(&format!("afdrop {k}"), &format!("ok{w}{wf}"));
+    }
+    fn gdrop(&mut self, sink: &mut Sink, g: usize) {
+        let was_w = matches!(self.guards[g], Some(GuardK::W(_)));
+        if self.guards[g].take().is_none() { return; }
+        // C16: a subscriber that was polled while the write guard was held is woken by its release
+        if was_w { for (i, s) in self.subs.iter().enumerate() { if let Some(s) = s { if self.under_w[i] && s.parked && !s.flag.0.load(Ordering::SeqCst) && self.futs.iter().all(|f| f.is_none()) {
+            sink.oracle_fail("C16,C02", &format!("subscriber {i} was polled while the write guard was held and is not woken by the release of the guard"));
+        } } } }
+        let w = self.woke(); let wf = self.wokef();
+        sink.line(&format!("agdrop {g}"), &format!("ok{w}{wf}"));
+    }
+    fn gset(&mut self, sink: &mut Sink, g: usize, v: u64) {
+        let Some(GuardK::W(gd)) = self.guards[g].as_mut() else { return };
+        let prev = ObservableWriteGuard::set(gd, T(v)).0;
+        if prev != self.cur { sink.oracle_fail("C16,C01", &format!("set through the write guard returned {prev}, the latest value was {}", self.cur)); }
+        self.cur = v;
+        self.mark_fresh();
+        let w = self.woke();
+        sink.line(&format!("agset {g} set {v}"), &format!("{prev}{w}"));
+    }
+    fn tryrw(&mut self, sink: &mut Sink, write: bool) {
+        let r = if write { self.ob.try_write().is_some() } else { self.ob.try_read().is_some() };
+        let any_w = self.wguard_held();
+        let any = self.guards.iter().any(|g| g.is_some());
+        // while a write guard is alive nothing else reads or writes; while any guard is alive nobody writes
+        if (any_w && r) || (write && any && r) { sink.oracle_fail("C16,C04", &format!("try_{} succeeded while a conflicting guard is held", if write { "write" } else { "read" })); }
+        sink.line(&format!("{} 0", if write { "atryw" } else { "atryr" }), if r { "some" } else { "none" });
+    }
+    fn subscribe(&mut self, sink: &mut Sink, reset: bool) {
+        let k = if reset { self.ob.subscribe_reset() } else { now(self.ob.subscribe()).expect("subscribe blocked") };
+        let (flag, waker) = flag_waker();
+        self.subs.push(Some(SubH { k: SubK::A(k), flag, waker, fresh: reset, parked: false }));
+        self.lockwait.push(false);
+        self.under_w.push(false);
+        sink.line(&format!("{} 0", if reset { "osubr" } else { "osub" }), &(self.subs.len() - 1).to_string());
+    }
+    fn poll(&mut self, sink: &mut Sink, i: usize) {
+        let cur = self.cur;
+        let (quiet, wheld) = (self.quiet(), self.wguard_held());
+        let s = self.subs[i].as_mut().unwrap();
+        let was_parked = s.parked && !s.flag.0.load(Ordering::SeqCst);
+        let mut cx = Context::from_waker(&s.waker);
+        let SubK::A(sb) = &mut s.k else { unreachable!() };
+        let r = Pin::new(sb).poll_next(&mut cx);
+        let shown = match &r { Poll::Ready(Some(t)) => format!("Ready({})", t.0), Poll::Ready(None) => "End".into(), Poll::Pending => "Pending".into() };
+        let fresh_before = s.fresh;
+        match r { Poll::Pending => { s.parked = true; s.flag.0.store(false, Ordering::SeqCst); } _ => { s.parked = false; s.fresh = false; } }
+        self.lockwait[i] = shown == "Pending" && !quiet;
+        self.under_w[i] = shown == "Pending" && wheld;
+        if wheld && shown != "Pending" { sink.oracle_fail("C16,C04", &format!("subscriber {i} polled while a write guard is held answered {shown}")); }
+        if quiet {
+            let expect = if fresh_before { format!("Ready({cur})") } else { "Pending".into() };
+            if shown != expect { sink.oracle_fail("C16,C01", &format!("poll of subscriber {i} answered {shown}, the default flavour would answer {expect}")); }
+        }
+        if was_parked && shown != "Pending" { sink.oracle_fail("C16,C02", &format!("subscriber {i} was Pending, was not woken, and a further poll answered {shown}")); }
+        let wf = self.wokef();
+        sink.line(&format!("opoll {i}"), &format!("{shown}{wf}"));
+    }
+    fn sdrop(&mut self, sink: &mut Sink, i: usize) {
+        self.subs[i] = None;
+        self.lockwait[i] = false;
+        let wf = self.wokef();
+        sink.line(&format!("osdrop {i}"), &format!("ok{wf}"));
+    }
+    /// release everything and drive every pending future to completion
+    fn settle(&mut self, sink: &mut Sink) {
+        for g in 0..self.guards.len() { self.gdrop(sink, g); }
+        for _ in 0..60 {
+            if self.futs.iter().all(|f| f.is_none()) && self.guards.iter().all(|g| g.is_none()) { break; }
+            for i in 0..self.subs.len() { if self.subs[i].is_some() && self.lockwait[i] { self.poll(sink, i); } }
+            for k in 0..self.futs.len() { if self.futs[k].is_some() { self.fpoll(sink, k); } }
+            for g in 0..self.guards.len() { self.gdrop(sink, g); }
+        }
+        if self.futs.iter().any(|f| f.is_some()) { sink.oracle_fail("C16", "after every guard was released some future still does not complete"); }
+        for i in 0..self.subs.len() { if self.subs[i].is_some() { self.poll(sink, i); self.poll(sink, i); } }
+    }
+}
+
+pub fn run_guards(args: &Args, sink: &mut Sink) {
+    let thorough = args.tier == "thorough";
+    // hand-written scenarios of the property statement
+    sink.case("G:writer-waits-for-read-guard");
+    { let mut w = GW::new(sink, 1); w.subscribe(sink, false); w.poll(sink, 0); w.rguard(sink); w.write(sink, 5, false); w.poll(sink, 0); w.gdrop(sink, 0); w.fpoll(sink, 0 + 1); w.settle(sink); sink.nontrivial(); }
+    sink.case("G:subscriber-under-write-guard");
+    { let mut w = GW::new(sink, 1); w.subscribe(sink, false); w.wguard(sink); w.gset(sink, 0, 7); w.poll(sink, 0); w.poll(sink, 0); w.gdrop(sink, 0); w.poll(sink, 0); w.poll(sink, 0); w.settle(sink); sink.nontrivial(); }
+    sink.case("G:cancelled-writer");
+    { let mut w = GW::new(sink, 1); w.subscribe(sink, true); w.rguard(sink); w.write(sink, 5, false); w.rguard(sink); w.fdrop(sink, 1); w.fpoll(sink, 2); w.settle(sink); sink.nontrivial(); }
+    let mut rng = Rng(args.seed ^ 0x6A2D);
+    let rounds = if thorough { 20000 } else { 3000 };
+    for k in 0..rounds {
+        let mut r = rng.fork();
+        sink.case(&format!("G{k}"));
+        let mut w = GW::new(sink, 1);
+        let steps = 8 + r.below(25);
+        for _ in 0..steps {
+            let live_subs: Vec<usize> = w.subs.iter().enumerate().filter(|(_, s)| s.is_some()).map(|(i, _)| i).collect();
+            let live_futs: Vec<usize> = w.futs.iter().enumerate().filter(|(_, s)| s.is_some()).map(|(i, _)| i).collect();
+            let live_guards: Vec<usize> = w.guards.iter().enumerate().filter(|(_, s)| s.is_some()).map(|(i, _)| i).collect();
+            match r.below(16) {
+                0 | 1 => w.write(sink, r.below(30) as u64, r.chance(1, 3)),
+                2 => if live_guards.len() < 3 { w.wguard(sink) },
+                3 | 4 => if live_guards.len() < 3 { w.rguard(sink) },
+                5 | 6 if !live_guards.is_empty() => w.gdrop(sink, live_guards[r.below(live_guards.len())]),
+                7 if w.wguard_held() => { let g = live_guards.iter().copied().find(|g| matches!(w.guards[*g], Some(GuardK::W(_)))).unwrap(); w.gset(sink, g, r.below(30) as u64) }
+                8 | 9 if !live_futs.is_empty() => w.fpoll(sink, live_futs[r.below(live_futs.len())]),
+                10 if !live_futs.is_empty() => w.fdrop(sink, live_futs[r.below(live_futs.len())]),
+                11 | 12 if !live_subs.is_empty() => w.poll(sink, live_subs[r.below(live_subs.len())]),
+                13 if w.quiet() && live_subs.len() < 3 => w.subscribe(sink, r.chance(1, 3)),
+                13 if live_subs.len() < 3 => w.subscribe(sink, true),
+                14 => w.tryrw(sink, r.chance(1, 2)),
+                15 if !live_subs.is_empty() && r.chance(1, 3) => w.sdrop(sink, live_subs[r.below(live_subs.len())]),
+                _ => {}
+            }
+        }
+        w.settle(sink);
+        sink.nontrivial();
+    }
 }
